@@ -1,0 +1,13 @@
+//go:build verif
+
+package context
+
+import (
+	"github.com/lindb/lindb/models"
+	"github.com/lindb/lindb/sql/stmt"
+)
+
+// VerifCalcTimeRangeAndInterval exposes calcTimeRangeAndInterval. Verification hook only.
+func VerifCalcTimeRangeAndInterval(statement *stmt.Query, cfg models.Database) {
+	calcTimeRangeAndInterval(statement, cfg)
+}
